@@ -1,5 +1,6 @@
 (* Running the provider model on generated histories and observing it the way the harness observes the
-   implementation (per transaction: result code, MdibVersion, changed table entries, saved versions). *)
+   implementation (per transaction: result code, MdibVersion, changed table entries, changed entries of the
+   three remembered-version tables = handle_version_lookup of descriptions / states / context_states). *)
 From Coq Require Import List ZArith Bool.
 From SDC Require Import Common.Corr Mdib.Model.
 Import ListNotations.
@@ -16,6 +17,8 @@ Definition enc_c (o : option cstate) : list Z :=
   | None => []
   end.
 
+Definition enc_v (o : option Z) : list Z := match o with Some z => [z] | None => [] end.
+
 Definition of_alist {A} (l : list (H * A)) : H -> option A := fun h => alist_get l h.
 
 Definition mk_mdib (ds : list (H * descr)) (ss : list (H * state)) (cs : list (H * cstate)) (v : Z) : mdib :=
@@ -28,7 +31,8 @@ Definition delta {A} (enc : option A -> list Z) (f g : H -> option A) (u : list 
 (* one transaction of a history: kind, abort point, actions *)
 Definition txn := (Z * option nat * list action)%type.
 
-Definition obs := (Z * Z * list (H * list Z) * list (H * list Z) * list (H * list Z))%type.
+Definition obs := (Z * Z * list (H * list Z) * list (H * list Z) * list (H * list Z)
+                * list (H * list Z) * list (H * list Z) * list (H * list Z))%type.
 
 Fixpoint run (ud uc : list H) (m : mdib) (hist : list txn) : list obs :=
   match hist with
@@ -36,12 +40,15 @@ Fixpoint run (ud uc : list H) (m : mdib) (hist : list txn) : list obs :=
   | (k, ab, acts) :: r =>
       let '(m', code) := transaction k ab acts m in
       (code, ver m', delta enc_d (descrs m) (descrs m') ud, delta enc_s (states m) (states m') ud,
-       delta enc_c (cstates m) (cstates m') uc) :: run ud uc m' r
+       delta enc_c (cstates m) (cstates m') uc,
+       delta enc_v (sv_d m) (sv_d m') ud, delta enc_v (sv_s m) (sv_s m') ud, delta enc_v (sv_c m) (sv_c m') uc)
+      :: run ud uc m' r
   end.
 
 Definition hl_eqb := list_eqb (prod_eqb Z.eqb zl_eqb).
 Definition obs_eqb (a b : obs) : bool :=
-  let '(c1, v1, d1, s1, x1) := a in
-  let '(c2, v2, d2, s2, x2) := b in
-  Z.eqb c1 c2 && Z.eqb v1 v2 && hl_eqb d1 d2 && hl_eqb s1 s2 && hl_eqb x1 x2.
+  let '(c1, v1, d1, s1, x1, vd1, vs1, vc1) := a in
+  let '(c2, v2, d2, s2, x2, vd2, vs2, vc2) := b in
+  Z.eqb c1 c2 && Z.eqb v1 v2 && hl_eqb d1 d2 && hl_eqb s1 s2 && hl_eqb x1 x2 &&
+  hl_eqb vd1 vd2 && hl_eqb vs1 vs2 && hl_eqb vc1 vc2.
 Definition trace_eqb := list_eqb obs_eqb.
